@@ -204,12 +204,15 @@ func (s *Set) Intersect(t Set) error {
 				continue
 			}
 			// TODO: Avoid the n^2 here.
-			if telem.max.lessThan(selem.min) || (telem.max.equal(selem.min) && telem.maxOpen) {
+			if telem.max.lessThan(selem.min) || (telem.max.equal(selem.min) && (telem.maxOpen || selem.minOpen)) {
 				continue // Not there yet.
 			}
 			if telem.min.greaterThan(selem.max) {
 				// No need to check further.
 				break
+			}
+			if telem.min.equal(selem.max) && (telem.minOpen || selem.maxOpen) {
+				continue // They touch, but the common point is excluded.
 			}
 			// We know they overlap. Choose the larger min and the lesser max.
 			min, max := selem.min, selem.max
